@@ -443,8 +443,13 @@ func runC07Bits(c *Ctx) {
 			it2 := &k4interp{p: c.P, m: m2, mem: map[string]k4val{}, inline: inl}
 			it2.mem["$0.twkb"] = k4val{kind: 8, s: "T", ln: 1, cp: 1}
 			it2.mem["T[0]"] = k4val{kind: 2, f: bb}
-			if _, err := it2.call(r, []k4val{{kind: 3, s: "$0"}}, nil); err != nil {
+			rres, err := it2.call(r, []k4val{{kind: 3, s: "$0"}}, nil)
+			if err != nil {
 				undec = fmt.Sprintf("cannot interpret the reader: %v %s", err, missingList(m2))
+				break
+			}
+			if len(rres) == 1 && rres[0].String() != "nil" {
+				problem = fmt.Sprintf("kind %d, precision %d is written as byte 0x%02x, which the reader refuses (%s): the writer's output cannot be read back", kind, prec, int(bb), trunc(rres[0].String()))
 				break
 			}
 			gk, gp := it2.mem["$0.kind"], it2.mem["$0.precXY"]
@@ -486,8 +491,13 @@ func runC07Bits(c *Ctx) {
 				it2 := &k4interp{p: c.P, m: m2, mem: map[string]k4val{}, inline: inl}
 				it2.mem["$0.twkb"] = k4val{kind: 8, s: "T", ln: 1, cp: 1}
 				it2.mem["T[0]"] = k4val{kind: 2, f: bb}
-				if _, err := it2.call(re, []k4val{{kind: 3, s: "$0"}}, nil); err != nil {
+				rres, err := it2.call(re, []k4val{{kind: 3, s: "$0"}}, nil)
+				if err != nil {
 					undec = fmt.Sprintf("cannot interpret the reader: %v %s", err, missingList(m2))
+					break
+				}
+				if len(rres) == 1 && rres[0].String() != "nil" {
+					problem = fmt.Sprintf("hasZ=%v precZ=%d hasM=%v precM=%d is written as 0x%02x, which the reader refuses (%s)", hasZ, pz, hasM, pm, int(bb), trunc(rres[0].String()))
 					break
 				}
 				rb := func(k string) bool { v, ok := it2.mem[k]; return ok && v.kind == 1 && v.b }
